@@ -1,6 +1,7 @@
 /-
 C10 — model of the Go collection-filesystem loader `dirnode.loadManifest`
-(sdk/go/arvados/fs_collection.go, after fix c99b8a5: no zero-length stored segments), of
+(sdk/go/arvados/fs_collection.go, after fixes c99b8a5: no zero-length stored segments, and
+499e88b: a file token whose offset+length overflows int64 is an error), of
 `createFileAndParents` on a flat tree, of manifestEscape/manifestUnescape, and of
 `PortableDataHash` / `Collection.SizedDigests` (sdk/go/arvados/collection.go).
 int64 overflow of `offset+length` is modelled (wrap-around), because the code can reach it.
@@ -114,7 +115,7 @@ def fsToken (tok : Bytes) (st : FsLine) (t : FsTree) : Option (FsLine × FsTree)
     | [o, l, nm] =>
       match parseIntBits 64 o, parseIntBits 64 l with
       | some offset, some length =>
-        if offset < 0 ∨ length < 0 then none else
+        if offset < 0 ∨ length < 0 ∨ addI64 offset length < offset then none else
         let st := { st with anyFile := true }
         match createFileAndParents (st.dirname ++ bSlash :: fsUnescape nm) t with
         | (.marker, t') => if length = 0 then some (st, t') else none
